@@ -152,8 +152,13 @@ class TableStructParameter(Parameter):
         # if the table row does not reference a structure, it must
         # point to a DOP!
         if tr.dop is None:
-            odxraise(f"Neither a structure nor a DOP has been defined for table row"
-                     f"'{tr.short_name}'")
+            # the table row references neither a structure nor a
+            # DOP, i.e., it does not carry any data. (this is what
+            # such rows are decoded to as well.)
+            if tr_value is not None:
+                odxraise(
+                    f"Table row '{tr.short_name}' does not exhibit any data, "
+                    f"but the value {tr_value!r} was specified for it", EncodeError)
             return
 
         tr.dop.encode_into_pdu(tr_value, encode_state)
